@@ -62,7 +62,7 @@ def literal_grid(r, tier):
             vals += [m * 10.0 ** e, -m * 10.0 ** e]
     vals += [0.1, 0.09999999999999999, 0.10000000000000002, 0.5, 1 / 3, 2 / 3, math.pi, math.e, 1e-7, 1.5e-7, 123456.789, 9999.5, 10000.5,
              -0.05, -0.0001, -0.00002, -1e-5, -2.5e-6, 1e15 + 0.5, 4503599627370496.5, 0.30000000000000004, 5e-324, 2.2250738585072014e-308]
-    n = 300 if tier == "quick" else 20000
+    n = 300 if tier == "quick" else 6000
     for _ in range(n):
         k = r.random()
         if k < 0.4:
@@ -77,7 +77,7 @@ def literal_grid(r, tier):
 def int_grid(r, tier, hashes):
     vals = [0, 1, -1, 9999, 10000, 10001, 10002, 65535, 65536, -10000, -10001, -65536, 2 ** 31 - 1, 2 ** 31, -2 ** 31, 2 ** 32, 2 ** 53 - 1, 2 ** 53, 2 ** 53 + 1, 2 ** 63 - 1, 255, 256, 4095, 4096]
     vals += list(hashes[:40]) + [h + 1 for h in hashes[:20]] + [h - 1 for h in hashes[:20]]
-    n = 500 if tier == "quick" else 50000
+    n = 500 if tier == "quick" else 15000
     for _ in range(n):
         vals.append(r.randrange(-2 ** r.randrange(1, 63), 2 ** r.randrange(1, 63)))
     return vals
@@ -127,12 +127,12 @@ def run(tier: str, seed: int) -> int:
     chk.bump("float_literals", 0)
     # -- C. grammar of real outputs ---------------------------------------------------------------------
     progs = list(whole.repo_sources())
-    n_gen = 100 if tier == "quick" else 4000
+    n_gen = 100 if tier == "quick" else 1200
     for i in range(n_gen):
         g = progen.Gen(r, progen.Profile(max_stmts=5))
         progs.append((f"gen:{i}", progen.print_program(g.program())))
     lits = literal_grid(r, "quick")
-    for i in range(40 if tier == "quick" else 400):
+    for i in range(40 if tier == "quick" else 150):
         vs = [r.choice(lits) for _ in range(4)]
         ints = [r.choice([10001, 65536, 2 ** 31, -70000, 2 ** 40 + 1, 12345678]) for _ in range(2)]
         src = "".join(f"db.Setting = {v!r}\n" for v in vs) + f"x = db.Setting + {vs[0]!r}\ndb.Setting = x * {ints[0]}\ndb.Setting = {ints[1]}\ndb.Setting = {vs[1]!r} * {vs[2]!r}\n"
